@@ -320,6 +320,72 @@ theorem v0_async_recheck_keeps_accepted_only (cfg : V0.Cfg) (h0 : Int) (ops : Li
     rw [g3, g4, hrv] at this
     exact this
 
+/-- THE DISCIPLINE MADE EXPLICIT. `V0.AOpG` adds `RemoveTxByKey` and `Flush` to the operations;
+`V0.Allowed` permits `RemoveTxByKey(k)` only while no recheck answer for `k` is pending and `Flush`
+only while no recheck answer at all is pending (both are always permitted when no recheck is in
+flight); `V0.Disciplined a ops` says every step of the history is permitted. Under it the
+invariants hold and nothing panics … -/
+theorem v0_async_invariants_disciplined (cfg : V0.Cfg) (h : Int) (ops : List V0.AOpG)
+    (hd : V0.Disciplined (V0.ainit cfg h) ops) :
+    let a := V0.arunG (V0.ainit cfg h) ops
+    (V0.keys a.s).Nodup ∧ a.s.txsMap.Perm (V0.keys a.s) ∧ a.s.txsBytes = bytesOf (V0.keys a.s) ∧
+      a.panicked = false := by
+  obtain ⟨hi, hp⟩ := V0.aphase_facts (V0.aphase_runG ops (V0.aphase_init cfg h) hd)
+  exact ⟨hi.nodup, hi.map, hi.bytes, hp⟩
+
+/-- … and **recheck_keeps_accepted_only** holds: after an `Update` that started a recheck, for any
+permitted steps in between (new submissions, answers, `RemoveTxByKey` of entries whose answer is
+not pending), once all recheck answers have been handled every pooled transaction was accepted.
+The hypothesis is minimal in the sense of `v0_async_recheck_fails_after_remove` (one
+`RemoveTxByKey` of an entry with a pending answer breaks the conclusion) and of the known finding
+`v0.async.flush-during-recheck.panic`. -/
+theorem v0_async_recheck_keeps_accepted_only_disciplined (cfg : V0.Cfg) (h0 : Int)
+    (ops : List V0.AOpG) (hd : V0.Disciplined (V0.ainit cfg h0) ops)
+    (ht : Int) (block : List (Bytes × Nat)) (pre post : Option Int) (rv : Bytes → Verdict)
+    (between : List V0.AOpG) :
+    let a1 := V0.aupdate (V0.arunG (V0.ainit cfg h0) ops) ht block pre post rv
+    a1.cursor ≠ none →
+    V0.Disciplined a1 between → (∀ o ∈ between, o.isUpdate = false) →
+    V0.countDeliverG between = (V0.keys a1.s).length →
+    ∀ k ∈ V0.keys (V0.arunG a1 between).s, accepted a1.s.post (rv k) = true := by
+  intro a1 hcur hdb hnu hcount k hk
+  have hph := V0.aphase_runG ops (V0.aphase_init cfg h0) hd
+  have hrv : a1.rv = rv := by
+    show (V0.aupdate _ ht block pre post rv).rv = rv
+    unfold V0.aupdate
+    simp only
+    split <;> rfl
+  rcases V0.aupdate_phase hph ht block pre post rv with hi | hr
+  · exact absurd hi.cursor hcur
+  · obtain ⟨kept', rem', firsts', g1, g2, g3, g4⟩ :=
+      V0.arunG_recheck_phase between a1 [] (V0.keys a1.s) [] hr hdb hnu (by omega)
+    have hrem : rem' = [] := List.length_eq_zero_iff.1 (by omega)
+    subst hrem
+    have hk' : k ∈ kept' := by
+      have := g1.keys
+      rw [this] at hk; simpa using hk
+    have := g1.kept k hk'
+    rw [g3, g4, hrv] at this
+    exact this
+
+/-- the discipline is satisfiable with a removal in the middle of a recheck: entry `[1]` is removed
+after its answer has been handled, while the answer for `[2]` is still pending -/
+example :
+    let a1 := V0.aupdate (V0.arunG (V0.ainit exCfg0b 0)
+      [.send [1] {}, .send [2] {}, .deliver, .deliver]) 1 [] none none
+      (fun t => if t = [2] then { code := 1 } else {})
+    V0.Disciplined a1 [.deliver, .removeByKey [1], .deliver] ∧
+    V0.keys (V0.arunG a1 [.deliver, .removeByKey [1], .deliver]).s = [] := by
+  refine ⟨⟨trivial, ?_, trivial, trivial⟩, by decide⟩
+  intro r hr
+  have : r = V0.Req.recheck [2] := by
+    have h : (V0.astepG (V0.aupdate (V0.arunG (V0.ainit exCfg0b 0)
+      [.send [1] {}, .send [2] {}, .deliver, .deliver]) 1 [] none none
+      (fun t => if t = [2] then { code := 1 } else {})) .deliver).queue = [V0.Req.recheck [2]] := by
+      decide
+    rw [h] at hr; simpa using hr
+  subst this; decide
+
 /-- outside that discipline the clause fails: `RemoveTxByKey` of an entry whose recheck answer is
 still in flight makes the skipping loop give up at `recheckEnd`; the rejected entry `c1` stays
 (known finding `v0.async.remove-during-recheck.rejected-tx-kept`, replayed by the `hazard` stream) -/
@@ -442,15 +508,21 @@ theorem v1_flush_empties (cfg : V1.Cfg) (h : Int) (ops : List V1.Op) :
     s.txs = [] ∧ s.byKey = [] ∧ s.txsBytes = 0 ∧ s.cache.keys = [] :=
   V1.flush_empties (V1.run_spec ops (V1.inv_init cfg h)).1
 
-/-- **order_priority_then_arrival** (v1): the reap order (`allEntriesSorted`) lists exactly the
-pool entries, each once, by non-increasing priority and, within a priority, by arrival.
-Reachable states. -/
-theorem v1_order_priority_then_arrival (cfg : V1.Cfg) (h : Int) (ops : List V1.Op) :
-    let s := V1.run (V1.init cfg h) ops
+/-- **order_priority_then_arrival** (v1), with no assumption on the timestamps: the reap order
+(`allEntriesSorted`) lists exactly the pool entries, each once; it is in non-increasing priority
+and, within a priority, non-decreasing arrival timestamp; and entries that tie on both keep their
+arrival (list) order — so the order is total and determined by the pool. Every state. -/
+theorem v1_order_priority_then_arrival (s : V1.State) :
     (V1.allEntriesSorted s).Perm s.txs ∧
     (V1.allEntriesSorted s).Pairwise
-      (fun x y => x.prio > y.prio ∨ (x.prio = y.prio ∧ x.seq ≤ y.seq)) :=
-  ⟨V1.allEntriesSorted_perm (V1.run_spec ops (V1.inv_init cfg h)).1, V1.allEntriesSorted_sorted _⟩
+      (fun x y => x.prio > y.prio ∨ (x.prio = y.prio ∧ x.seq ≤ y.seq)) ∧
+    (∀ x y, [x, y].Sublist s.txs → x.prio = y.prio → x.seq = y.seq →
+      [x, y].Sublist (V1.allEntriesSorted s)) := by
+  refine ⟨V1.allEntriesSorted_perm s, V1.allEntriesSorted_sorted s, ?_⟩
+  intro x y h hp hs
+  apply V1.allEntriesSorted_stable s x y h
+  rw [V1.reapBefore_false_iff]
+  omega
 
 /-- **reap_is_prefix_within_limits** (v1, `ReapMaxBytesMaxGas`): the first `k` entries of the reap
 order, within the byte and gas limits, `k` maximal. Every state, all limits. -/
@@ -563,7 +635,7 @@ theorem v1_order_strict_of_distinct_timestamps (cfg : V1.Cfg) (h : Int) (ops : L
     (V1.allEntriesSorted s).Pairwise
       (fun x y => x.prio > y.prio ∨ (x.prio = y.prio ∧ x.seq < y.seq)) := by
   intro s hnd
-  have hperm := V1.allEntriesSorted_perm (V1.run_spec ops (V1.inv_init cfg h)).1
+  have hperm := V1.allEntriesSorted_perm (V1.run (V1.init cfg h) ops)
   have hnd' : ((V1.allEntriesSorted s).map (·.seq)).Nodup := ((hperm.map (·.seq)).nodup_iff).2 hnd
   have hne : (V1.allEntriesSorted s).Pairwise (fun x y => x.seq ≠ y.seq) := by
     have := List.pairwise_map.1 hnd'
@@ -573,16 +645,23 @@ theorem v1_order_strict_of_distinct_timestamps (cfg : V1.Cfg) (h : Int) (ops : L
     · exact Or.inl h1
     · exact Or.inr ⟨h1, by have := hxy.2; omega⟩)
 
-/-- … and it is NOT a strict order otherwise: two different entries with the same priority and the
-same timestamp are not ordered by the comparator of `allEntriesSorted` (`sort.Slice` over a map
-iteration may return them either way; known finding `v1.reap.order-undefined-on-equal-timestamps`,
-replayed by the `hazard kind=tie` stream with the timestamp hook). -/
-theorem v1_order_not_strict_on_equal_timestamps :
+/-- … and with equal timestamps the comparator alone does not order two entries (this was the
+finding `v1.reap.order-undefined-on-equal-timestamps`, fixed by collecting in arrival order and
+sorting stably: see the third clause of `v1_order_priority_then_arrival`). -/
+theorem v1_comparator_not_total_on_equal_timestamps :
     ∃ a b : V1.WTx, a ≠ b ∧ a.prio = b.prio ∧ a.seq = b.seq ∧
       V1.reapBefore a b = false ∧ V1.reapBefore b a = false :=
   ⟨{ tx := [1], height := 0, seq := 5, gas := 0, prio := 1, sender := "" },
    { tx := [2], height := 0, seq := 5, gas := 0, prio := 1, sender := "" }, by decide, rfl, rfl,
    by decide, by decide⟩
+
+/-- two entries with the same priority and timestamp are reaped in arrival order -/
+example :
+    let s : V1.State := { V1.init exCfg1 0 with txs :=
+      [{ tx := [9], height := 0, seq := 5, gas := 0, prio := 1, sender := "" },
+       { tx := [2], height := 0, seq := 5, gas := 0, prio := 1, sender := "" },
+       { tx := [3], height := 0, seq := 1, gas := 0, prio := 7, sender := "" }] }
+    (V1.allEntriesSorted s).map (·.tx) = [[3], [9], [2]] := by decide
 
 /-- **senders_recorded** (v1, supporting). Every state. -/
 theorem v1_senders_recorded (s : V1.State) (tx : Bytes) (v : Verdict) (peer : Nat) :
@@ -612,6 +691,40 @@ theorem v1_rejected_not_admitted (cfg : V1.Cfg) (h0 : Int) (ops : List V1.Op) (t
     let s := V1.run (V1.init cfg h0) ops
     accepted s.post v = false → V1.keys (V1.checkTx s tx v).1 = V1.keys s :=
   (V1.checkTx_spec (V1.run_spec ops (V1.inv_init cfg h0)).1 tx v).2.2.2.2.2
+
+/-! ## v1 with `CheckTx` split into its two halves (calls in flight across other steps)
+
+`V1.SState`: v1's `CheckTx` calls the application between its read-locked first phase and the
+write-locked `addNewTransaction`, holding no pool lock; `sbegin` / `sfinish i v` are the halves, any
+number of calls may be in flight, and `Update` may run in between. Histories: any interleaving. -/
+
+/-- the state invariants (uniqueness, index, byte counter, limits) survive every such history -/
+theorem v1_split_invariants (cfg : V1.Cfg) (hv : V1.CfgValid cfg) (h : Int) (ops : List V1.SOp) :
+    let s := (V1.srun (V1.sinit cfg h) ops).s
+    (V1.keys s).Nodup ∧ s.byKey.Perm (V1.keys s) ∧ s.txsBytes = bytesOf (V1.keys s) ∧
+    (s.txs.length : Int) ≤ cfg.size ∧ s.txsBytes ≤ cfg.maxTxsBytes := by
+  obtain ⟨hi, hc, hb⟩ := V1.srun_spec ops (a := V1.sinit cfg h) (V1.inv_init cfg h)
+  have hb := hb (V1.bounded_init cfg h hv)
+  unfold V1.Bounded at hb
+  have hc' : (V1.srun (V1.sinit cfg h) ops).s.cfg = cfg := hc
+  rw [hc', V1.keys_length] at hb
+  exact ⟨hi.nodup, hi.map, hi.bytes, hb.1, hb.2⟩
+
+/-- … but "a committed transaction is not re-admitted while remembered" FAILS for a call in flight
+across the commit: the call passed the cache check before the block was committed, `Update` finds
+nothing to remove, and `addNewTransaction` then inserts the committed transaction although the cache
+remembers it (known finding `v1.inflight-check-readmits-committed-tx`, replayed on the real pool by
+holding the call at the application). -/
+theorem v1_split_committed_readmitted_fails :
+    let a := V1.srun (V1.sinit exCfg1 1)
+      [.begin [1] 0, .update 2 [([1], 0)] none none (fun _ => {}) (fun _ => false), .finish 0 {}]
+    [1] ∈ V1.keys a.s ∧ a.s.cache.has [1] = true := by decide
+
+/-- without a call in flight across the commit the clause holds: `v1_no_readmit_while_cached`,
+`v1_update_remembers_last_committed` (there `CheckTx` is one step). -/
+example : (V1.srun (V1.sinit exCfg1 1)
+    [.begin [1] 0, .finish 0 {}, .update 2 [([1], 0)] none none (fun _ => {}) (fun _ => false),
+     .begin [1] 0]).s.txs = [] := by decide
 
 /-! ## The byte counter with an explicit key function
 
@@ -654,5 +767,83 @@ theorem keyed_refines_v0 (s : V0.State) (tx : Bytes) (b : Bool) (h : tx ∈ s.tx
   rw [V0.keys_removeTx]
   have := map_eraseP_key (fun e : Bytes => e) tx (V0.keys s)
   simpa using this
+
+/-! ### All key-dependent clauses with an explicit key function (`Keyed.KPool`)
+
+`KPool` = accounting core + LRU cache (of KEYS) + senders per key; whatever the pools decide
+without looking at keys is an arbitrary input of the operations. So the following hold for EVERY
+key function, and where the identification of a tx with its key mattered the alternative is an
+explicit collision between two transactions of the history (`ops.map KOp.tx`). -/
+
+/-- no_duplicates / index_consistent: the pooled transactions have pairwise different KEYS (hence
+are pairwise different) and the index holds exactly those keys — no collision alternative needed -/
+theorem keyed_no_duplicates (key : Bytes → Bytes) (n : Int) (ops : List Keyed.KOp) :
+    let p := Keyed.krunV0 key (Keyed.kempty n) ops
+    (p.acc.entries.map key).Nodup ∧ p.acc.entries.Nodup ∧ p.acc.index.Perm (p.acc.entries.map key) := by
+  obtain ⟨hi, _⟩ := Keyed.krunV0_spec key (ops.map Keyed.KOp.tx) ops (Keyed.kempty n)
+    (Keyed.inv_empty key _) (Or.inl rfl) (fun o ho => List.mem_map_of_mem (f := Keyed.KOp.tx) ho)
+  exact ⟨hi.nodup, Keyed.nodup_of_map_nodup key _ hi.nodup, hi.index⟩
+
+/-- count_bytes (the counter): exact, or a traced collision (v0); exact (v1) -/
+theorem keyed_pool_v0_bytes_exact_or_collision (key : Bytes → Bytes) (n : Int) (ops : List Keyed.KOp) :
+    let p := Keyed.krunV0 key (Keyed.kempty n) ops
+    p.acc.bytes = bytesOf p.acc.entries ∨
+    ∃ x ∈ ops.map Keyed.KOp.tx, ∃ y ∈ ops.map Keyed.KOp.tx, x ≠ y ∧ key x = key y :=
+  (Keyed.krunV0_spec key (ops.map Keyed.KOp.tx) ops (Keyed.kempty n)
+    (Keyed.inv_empty key _) (Or.inl rfl) (fun o ho => List.mem_map_of_mem (f := Keyed.KOp.tx) ho)).2
+
+theorem keyed_pool_v1_bytes_exact (key : Bytes → Bytes) (n : Int) (ops : List Keyed.KOp) :
+    let p := Keyed.krunV1 key (Keyed.kempty n) ops
+    p.acc.bytes = bytesOf p.acc.entries :=
+  (Keyed.krunV1_spec key (ops.map Keyed.KOp.tx) ops (Keyed.kempty n)
+    (Keyed.inv_empty key _) rfl (fun o ho => List.mem_map_of_mem (f := Keyed.KOp.tx) ho)).2
+
+/-- committed_removed: after the `Update` iteration for `tx` no pooled transaction has `tx`'s key
+— in particular `tx` itself is gone (v0 and v1 accounting alike) -/
+theorem keyed_committed_removed (key : Bytes → Bytes) (n : Int) (ops : List Keyed.KOp)
+    (tx : Bytes) (ok keep : Bool) :
+    (∀ e ∈ (Keyed.kcommitV0 key (Keyed.krunV0 key (Keyed.kempty n) ops) tx ok keep).acc.entries,
+      key e ≠ key tx) ∧
+    tx ∉ (Keyed.kcommitV0 key (Keyed.krunV0 key (Keyed.kempty n) ops) tx ok keep).acc.entries := by
+  obtain ⟨hi, _⟩ := Keyed.krunV0_spec key (ops.map Keyed.KOp.tx) ops (Keyed.kempty n)
+    (Keyed.inv_empty key _) (Or.inl rfl) (fun o ho => List.mem_map_of_mem (f := Keyed.KOp.tx) ho)
+  have h := Keyed.removeV0_no_key key hi tx
+  exact ⟨h, fun hm => h tx hm rfl⟩
+
+/-- no_readmit_while_cached: while the cache holds `tx`'s KEY, a submission of `tx` leaves the
+pooled transactions, the index and the counter as they are (every state) -/
+theorem keyed_no_readmit_while_cached (key : Bytes → Bytes) (p : Keyed.KPool) (tx : Bytes)
+    (peer : Nat) (adm rm : Bool) (h : p.cache.has (key tx) = true) :
+    (Keyed.kcheck key p tx peer adm rm).acc = p.acc :=
+  Keyed.kcheck_cached key p tx peer adm rm h
+
+/-- senders_recorded: after a submission that was a cache hit or was admitted, `peer` is recorded
+under `tx`'s key whenever the index holds that key; and the entry it is recorded on is `tx` itself
+unless two different transactions of the history share a key -/
+theorem keyed_senders_recorded (key : Bytes → Bytes) (n : Int) (ops : List Keyed.KOp)
+    (tx : Bytes) (peer : Nat) (adm rm : Bool) :
+    let p := Keyed.krunV0 key (Keyed.kempty n) ops
+    let p' := Keyed.kcheck key p tx peer adm rm
+    ((p.cache.push (key tx)).2 = false ∨ adm = true) → key tx ∈ p'.acc.index →
+    peer ∈ Keyed.sendersOf p' (key tx) ∧
+    (tx ∈ p'.acc.entries ∨
+      ∃ x ∈ (ops ++ [Keyed.KOp.check tx peer adm rm]).map Keyed.KOp.tx,
+      ∃ y ∈ (ops ++ [Keyed.KOp.check tx peer adm rm]).map Keyed.KOp.tx, x ≠ y ∧ key x = key y) := by
+  intro p p' hadm hk
+  refine ⟨Keyed.kcheck_records key p tx peer adm rm hadm hk, ?_⟩
+  have hrun := Keyed.krunV0_spec key ((ops ++ [Keyed.KOp.check tx peer adm rm]).map Keyed.KOp.tx)
+    (ops ++ [Keyed.KOp.check tx peer adm rm]) (Keyed.kempty n) (Keyed.inv_empty key _) (Or.inl rfl)
+    (fun o ho => List.mem_map_of_mem (f := Keyed.KOp.tx) ho)
+  have hp' : Keyed.krunV0 key (Keyed.kempty n) (ops ++ [Keyed.KOp.check tx peer adm rm]) = p' := by
+    simp [Keyed.krunV0, List.foldl_append, Keyed.kstepV0, p', p]
+  rw [hp'] at hrun
+  exact Keyed.entry_is_tx_or_collision key hrun.1 tx (by simp [Keyed.KOp.tx]) hk
+
+/-- with a colliding key function the sender of one transaction IS recorded on another -/
+example :
+    (Keyed.kcheck (fun _ => []) (Keyed.kcheck (fun _ => []) (Keyed.kempty 0) [1] 7 true false)
+      [2] 9 true false).acc.entries = [[1]] ∧
+    Keyed.sendersOf (Keyed.kcheck (fun _ => []) (Keyed.kcheck (fun _ => []) (Keyed.kempty 0) [1] 7 true false)
+      [2] 9 true false) [] = [7, 9] := by decide
 
 end Tmv.Props.C12
